@@ -92,7 +92,7 @@ class RuntimeStartError(Exception):
 LOCK_WAITED = [0.0]
 
 
-def real_perm_data_batch(jobs, lock_wait_s):
+def real_perm_data_batch(jobs, lock_wait_s, job_s=240):
     """jobs: list of (circuit, model).  Runs the real caching part of the SeqPAM workflow
     ([SetModelPass, ForEachBlockPass(EmbedAllPermutationsPass(QSearch))]) for all jobs on ONE
     bqskit runtime.  The machine-wide runtime lock (/work/RUNTIME_LOCK.md) is held for the
@@ -168,7 +168,7 @@ def real_perm_data_batch(jobs, lock_wait_s):
             res = None
             for attempt in range(2):
                 try:
-                    signal.alarm(240)
+                    signal.alarm(job_s)
                     if state['comp'] is None:
                         start()
                     oc, data = state['comp'].compile(c, wf, request_data=True)
@@ -195,7 +195,7 @@ def real_perm_data_batch(jobs, lock_wait_s):
         lockf.close()
 
 
-def run_real_cases(specs, lock_wait_s):
+def run_real_cases(specs, lock_wait_s, job_s=240):
     """all 'real' PAM cases of a check: inputs built first, ONE runtime under the lock, oracles
     evaluated after the lock is released"""
     from bqskit.ir.circuit import Circuit  # noqa: F401
@@ -206,7 +206,7 @@ def run_real_cases(specs, lock_wait_s):
         model = MachineModel(sp['N'], CouplingGraph([tuple(e) for e in sp['edges']], sp['N']))
         jobs.append((gen_pam_circuit(sp), model))
     try:
-        prepared = real_perm_data_batch(jobs, lock_wait_s)
+        prepared = real_perm_data_batch(jobs, lock_wait_s, job_s)
     except RuntimeStartError as e:
         prepared = [e] * len(specs)
     out = []
@@ -330,9 +330,8 @@ def run_pam_case(spec, prepared=None):
     U_in = c.get_unitary().numpy if N <= 7 else None
     data = PassData(c)
     data[ForEachBlockPass.key] = [block_datas]
-    pr = spec['params']
-    kw = dict(decay_delta=pr[0], decay_reset_interval=pr[1], decay_reset_on_gate=pr[2],
-              extended_set_size=pr[3], extended_set_weight=pr[4])
+    kw = H.params_kw(spec['params'])
+    kwl = H.params_kw(spec.get('lparams') or spec['params'])
     snap = {}
 
     def rep(extra=None):
@@ -355,8 +354,12 @@ def run_pam_case(spec, prepared=None):
                             'connected machine', rep({'raised': str(e)[:200]}), True))
         return res
     snap['P'] = list(data.placement)
-    layout = PAMLayoutPass(spec['layout'], spec['gcw'], **kw) if spec['layout'] else None
+    layout = PAMLayoutPass(spec['layout'], spec['gcw'], **kwl) if spec['layout'] else None
     routing = PAMRoutingPass(spec['gcw'], **kw)
+    if spec.get('adv'):
+        H.adversarial_heuristic(routing, spec['seed'] + 11)
+        if layout is not None:
+            H.adversarial_heuristic(layout, spec['seed'] + 12)
     try:
         if layout is not None:
             H.instrument(layout, rec_l)
@@ -364,6 +367,12 @@ def run_pam_case(spec, prepared=None):
         snap['pl'] = list(data.placement)
         H.instrument(routing, rec_r)
         H.run_recorded(routing, c, data, rec_r, True)
+    except H.ExtSetBlowup as e:
+        res['raised'] = ('ext-set-blowup', 'pam', str(e))
+        res['ext_max'] = max(rec_l.ext_max, rec_r.ext_max)
+        res['viol'].append(H.blowup_violation(
+            spec, 'layout' if 'pl' not in snap else 'routing', e, rep()))
+        return res
     except (RuntimeError, ValueError, TypeError, IndexError, KeyError, AssertionError) as e:
         # the machine is connected, the placement valid, the permutation data complete:
         # the PAM passes have no reason to fail
@@ -375,6 +384,7 @@ def run_pam_case(spec, prepared=None):
                             f'on a valid radix-{r} input (connected machine, valid placement, '
                             'complete permutation data)', rep({'raised': str(e)[:200]}), True))
         return res
+    res['ext_max'] = max(rec_l.ext_max, rec_r.ext_max)
     snap['fm4'] = list(data.final_mapping)
     snap['pi'] = list(rec_r.pi)
     out_data = data[PAMRoutingPass.out_data_key]
